@@ -59,8 +59,9 @@ CLAIMED["C13"] = dict(
          "the transport (never negative, zero when drained) under every congestion oracle; association end closes "
          "every channel and empties table and queue; auto-chosen ids are unused and of the role's parity, live "
          "channels have pairwise distinct ids, closing never raises KeyError; a received OPEN yields exactly one "
-         "datachannel event for an open channel with the opener's id and parameters, a repeated OPEN is ignored "
-         "(12 theorems). PARTIAL: cross-endpoint id disjointness and the two-endpoint close protocol are "
+         "datachannel event for an open channel with the opener's id and parameters, a repeated OPEN is ignored; "
+         "close() on an open channel resets exactly its stream and the peer's response closes it and frees the id "
+         "for immediate reuse (13 theorems). PARTIAL: cross-endpoint id disjointness and the two-endpoint close protocol are "
          "observed only; the latter is refuted by known findings K4 (RE-CONFIG never retransmitted), K9 (reset request "
          "processed before the DATA it follows), K10 (id reused before both directions are reset).",
     design_ref="5 / C13",
